@@ -287,6 +287,21 @@ def later_block_machine() -> Machine:
     return gen_machine(random.Random(0), depth=2, fns=[f], inv=("x", 3, 0))
 
 
+def refuted_probe_machine(first_falls_through: bool = True) -> Machine:
+    """Two assertions in one target function: the first can never fail (timestamps do not decrease) but its Panic branch is
+    only refuted by the full query - the branching solver, which sees the sliced state, takes it for possible; the second
+    one fails in the second call.  The refuted one must not stand in for the real one.  (The shape of the first check
+    decides which of the two potential violations halmos meets first.)"""
+    body = [("PUSH", 2), "SLOAD", "TIMESTAMP", "LT"]
+    body += ["ISZERO", ("PUSHL", "ok1"), "JUMPI"] + panic(1) + [("LABEL", "ok1")] if first_falls_through else [("PUSHL", "p1"), "JUMPI"]
+    body += ["TIMESTAMP", ("PUSH", 2), "SSTORE"] + _set(0, [("PUSH", 0), "SLOAD", ("PUSH", 1), "ADD"])
+    body += [("PUSH", 2), ("PUSH", 0), "SLOAD", "LT", "ISZERO", ("PUSHL", "p2"), "JUMPI", "STOP", ("LABEL", "p2")] + panic(1)
+    if not first_falls_through:
+        body += [("LABEL", "p1")] + panic(1)
+    f = TFn("touch()", body, 0, desc="assert(block.timestamp>=last); last=block.timestamp; x=x+1; assert(x<2)")
+    return gen_machine(random.Random(0), depth=2, fns=[f], inv=("x", 7, 0))
+
+
 def merge_machine() -> Machine:
     """Two paths of one call end in states that differ only in a constraint on an argument the stored value is
     merely related to (a <= b, then b < 2 / b >= 2): they are different states and must not be merged."""
